@@ -27,6 +27,8 @@ enum Class {
     Parsed,
     Transport,
     Status,
+    /// HTTP error that itself dictates a poll interval (no retry, still an error)
+    StatusRetryAfter,
     Unparseable,
     Forged,
 }
@@ -40,6 +42,7 @@ struct D {
     class: Option<Class>,
     doc: Option<Vec<AppDoc>>,
     reboot_asked: usize,
+    last_session: Option<usize>,
 }
 
 const STATUSES: usize = 6;
@@ -87,17 +90,28 @@ impl Director for D {
         if req.kind != ReqKind::UpdateCheck {
             return HttpAns::Resp(RespSpec::ok(ack_bytes(&[])));
         }
+        if req.session != self.last_session {
+            // a new check (new session): new environment answers
+            self.last_session = req.session;
+            self.class = None;
+            self.doc = None;
+            self.reboot_asked = 0;
+        }
+        if self.class.is_none() && self.multi {
+            self.class = Some(Class::Parsed);
+        }
         if self.class.is_none() {
             let classes: &[Class] = if self.cup {
                 &[Class::Parsed, Class::Forged, Class::Unparseable, Class::Transport]
             } else {
-                &[Class::Parsed, Class::Transport, Class::Status, Class::Unparseable]
+                &[Class::Parsed, Class::Transport, Class::Status, Class::Unparseable, Class::StatusRetryAfter]
             };
             self.class = Some(classes[w.choose("uc.class", classes.len())]);
         }
         match self.class.unwrap() {
             Class::Transport => HttpAns::Transport,
             Class::Status => HttpAns::Resp(RespSpec::ok(b"nope".to_vec()).status(503)),
+            Class::StatusRetryAfter => HttpAns::Resp(RespSpec::ok(b"nope".to_vec()).status(503).header("X-Retry-After", b"120")),
             Class::Unparseable => HttpAns::Resp(RespSpec::ok(b"{\"response\": 42".to_vec())),
             Class::Forged => {
                 let d = vec![AppDoc::new(&self.app_ids[0], Uc::OkManifest("6.6.6.6".into()))];
@@ -149,9 +163,13 @@ impl Director for D {
 }
 
 fn run_one(ctx: &RunCtx, tier: Tier, cup: bool, multi: bool) -> RunOut {
-    let max_apps = if cup { 1 } else { tier.pick(2, 3) };
+    run_iter(ctx, tier, cup, multi, 1)
+}
+
+fn run_iter(ctx: &RunCtx, tier: Tier, cup: bool, multi: bool, iterations: usize) -> RunOut {
+    let max_apps = if cup { 1 } else if iterations > 1 { 2 } else { tier.pick(2, 3) };
     let n_apps = if multi { 3 } else { 1 + choose("n_apps", max_apps) };
-    let mode = [Mode::Oneshot, Mode::Start][choose("mode", 2)];
+    let mode = if iterations > 1 { Mode::Start } else { [Mode::Oneshot, Mode::Start][choose("mode", 2)] };
     let bad_url = !cup && !multi && choose("bad_url", 2) == 1;
     let ids: Vec<String> = ["app-A", "app-B", "app-C"][..n_apps]
         .iter()
@@ -170,6 +188,12 @@ fn run_one(ctx: &RunCtx, tier: Tier, cup: bool, multi: bool) -> RunOut {
     if mode == Mode::Start {
         s.blocking = Blocking::timers_only();
     }
+    // a poll interval dictated earlier (stored): failures are then not retried but still errors
+    let stored_poll = !cup && !multi && choose("stored_poll", 2) == 1;
+    let mut store0 = Store::default();
+    if stored_poll {
+        store0.committed.insert("server_dictated_poll_interval".into(), StVal::I(1_800_000_000));
+    }
     let d = D {
         multi,
         app_ids: ids.clone(),
@@ -178,13 +202,16 @@ fn run_one(ctx: &RunCtx, tier: Tier, cup: bool, multi: bool) -> RunOut {
         class: None,
         doc: None,
         reboot_asked: 0,
+        last_session: None,
     };
-    let mut e = Exec::new(s, Box::new(d), Store::default());
-    let stop = e.run_auto(2000, |w| {
+    let mut e = Exec::new(s, Box::new(d), store0);
+    let stop = e.run_auto(2000 * iterations, |w| {
         mode == Mode::Start
             && w.log
                 .iter()
-                .any(|o| matches!(o, Obs::Ev(Ev::State(State::Idle))))
+                .filter(|o| matches!(o, Obs::Ev(Ev::State(State::Idle))))
+                .count()
+                >= iterations
     });
     let log = e.log();
     let digest = trace::digest(&log);
@@ -202,8 +229,26 @@ fn run_one(ctx: &RunCtx, tier: Tier, cup: bool, multi: bool) -> RunOut {
             )
         }
     }
-    if let Err((k, m)) = oracle(&log, mode, bad_url, cup) {
-        return out.fail(k, m);
+    if iterations == 1 {
+        if let Err((k, m)) = oracle(&log, mode, bad_url, cup) {
+            return out.fail(k, m);
+        }
+    } else {
+        // every check of the history is judged on its own segment (up to and including its Idle)
+        let mut start = 0;
+        let mut n = 0;
+        for (i, o) in log.iter().enumerate() {
+            if matches!(o, Obs::Ev(Ev::State(State::Idle))) {
+                if let Err((k, m)) = oracle(&log[start..=i], mode, bad_url, cup) {
+                    return out.fail(format!("check {}: {k}", n + 1), m);
+                }
+                start = i + 1;
+                n += 1;
+            }
+        }
+        if n != iterations {
+            return out.fail(format!("{n} checks completed, expected {iterations}"), "");
+        }
     }
     out
 }
@@ -619,7 +664,7 @@ fn parts(tier: Tier) -> Vec<PartDef> {
             "flow-nocup",
             Cfg::new("C04/flow-nocup"),
             json!({"apps": tier.pick("1..2", "1..3"), "response_len": tier.pick("0..2", "0..3"), "statuses": STATUSES,
-                   "classes": ["parsed","transport","http-status","unparseable","bad service url"], "policy": 3, "plan": 2,
+                   "classes": ["parsed","transport","http-status","http-status + X-Retry-After","unparseable","bad service url"], "stored_poll_interval": [false, true], "policy": 3, "plan": 2,
                    "installer_per_app": 3, "reboot_needed": 2, "reboot_allowed": ["t","f,t"], "modes": ["oneshot","start (1 iteration)"],
                    "exploration": "full product"}),
             move |ctx| run_one(ctx, tier, false, false),
@@ -629,6 +674,12 @@ fn parts(tier: Tier) -> Vec<PartDef> {
             Cfg::new("C04/three-apps-any-offered"),
             json!({"apps": 3, "response": "all three apps in every order, each offered an update or not", "policy": 3, "plan": 2, "installer_per_offered_app": 3, "reboot": "as in flow-nocup", "modes": 2, "exploration": "full product"}),
             move |ctx| run_one(ctx, tier, false, true),
+        ),
+        PartDef::new(
+            "two-consecutive-checks",
+            Cfg::new("C04/two-consecutive-checks").dev(tier.pick(5, 7)),
+            json!({"apps": "1..2", "iterations": 2, "alphabets": "as flow-nocup, chosen independently per check", "exploration": format!("all histories within {} non-default choices", tier.pick(5, 7))}),
+            move |ctx| run_iter(ctx, tier, false, false, 2),
         ),
         PartDef::new(
             "flow-cup",
